@@ -16,6 +16,30 @@ CHECKS = {
              "Bounded: history length 6 (quick) / 8 (thorough) exhaustively, 14-24 random.",
         technique="TLA+ spec + TLC exhaustive check + replay of TLC behaviours on the real cla.Manager",
     ),
+    "C09": dict(
+        category="model_checking",
+        text="Every call of the real Bundle.Fragment(mtu) over a generated space (block mixes, CRC types, endpoint forms, payload 0..40 x "
+             "every mtu from below the minimal overhead to above the bundle size, larger payloads at CBOR width boundaries, second-level "
+             "fragmentation) is recorded and judged by the TLA+ operator Frag!FragRecProblems evaluated by TLC (size limit, partition of the "
+             "payload, totals, header fields, extension blocks, validity, byte-identical reassembly in three orders). Frag.tla itself is "
+             "model-checked. Pure-function property: TLA+ as executable reference, records from the real code as the trace.",
+        design_ref="DESIGN.md section 6 C09",
+        note="Trusted: TLC, the recorder harness (it computes sizes and byte comparisons; TLC judges structure). The must-not-fragment-but-fits "
+             "case is left unconstrained. Payloads above 70000 bytes and multi-entry map blocks are not generated.",
+        technique="TLA+ reference operators evaluated by TLC over records of real Fragment() calls (trace validation of a pure function)",
+    ),
+    "C10": dict(
+        category="model_checking",
+        text="Frag.tla models arrival of arbitrary fragments (intervals) of one bundle; TLC checks the sweep algorithm against the set-based "
+             "definition of coverage for all sequences of <=K intervals over N cells, and prints all of them; each is replayed as real "
+             "fragment bundles through IsBundleReassemblable/ReassembleFragments after every arrival (panic = violation). Subsets, "
+             "duplicates and shuffles of real Fragment() output from up to three limits plus second-level fragments are reassembled by the "
+             "real code and judged by Frag!ReasmRecProblems in TLC.",
+        design_ref="DESIGN.md section 6 C10",
+        note="Trusted: TLC, harness construction of synthetic fragments. Bounds: N<=5,K<=3 / N=3,K=4 quick; N<=6,K<=4 thorough. The store's "
+             "completeness test is covered under C08's harness.",
+        technique="TLA+ spec + TLC enumeration of interval sequences replayed on the real reassembly code; TLC-judged records of real fragments",
+    ),
 }
 
 NOT_YET = "machinery for this property is not built yet in this revision (planned in DESIGN.md section 6)"
